@@ -89,6 +89,7 @@ def generate(cfg, repo=None, log=None):
     if os.path.exists(marker):
         try:
             os.utime(out)
+            os.utime(os.path.dirname(out))     # prune_cache judges the age of the tree-hash directory
         except OSError:
             pass
         return out
